@@ -43,7 +43,13 @@ pub enum CfgRule {
     /// width sweep (quick: fixed+seeded widths; thorough: all widths) × tabs × reorder
     Sweep { tabs: Vec<usize>, reorder: Vec<bool> },
     Fixed(Vec<Cfg>),
+    /// fixed width grid × tabs × reorder (quick: core widths + seed-chosen grid widths; thorough/full: whole grid)
+    Grid { tabs: Vec<usize>, reorder: Vec<bool> },
 }
+
+pub const WIDTH_GRID: [usize; 26] =
+    [0, 1, 2, 3, 5, 8, 10, 13, 16, 20, 25, 30, 35, 40, 45, 50, 55, 60, 70, 80, 90, 100, 110, 120, 160, fmtx::W_INF];
+pub const WIDTH_CORE: [usize; 8] = [0, 1, 2, 20, 40, 80, 120, fmtx::W_INF];
 
 pub struct Part {
     pub pool: Box<dyn Pool>,
@@ -61,12 +67,34 @@ impl Part {
 pub fn cfgs_for(rule: &CfgRule, text: &str, tier: Tier, rng: &mut Rng) -> Vec<Cfg> {
     match rule {
         CfgRule::Fixed(v) => v.clone(),
+        CfgRule::Grid { tabs, reorder } => {
+            let mut widths: Vec<usize> = if tier == Tier::Quick {
+                let mut w = WIDTH_CORE.to_vec();
+                for _ in 0..3 {
+                    w.push(WIDTH_GRID[rng.below(WIDTH_GRID.len())]);
+                }
+                w
+            } else {
+                WIDTH_GRID.to_vec()
+            };
+            widths.sort_unstable();
+            widths.dedup();
+            let mut out = vec![];
+            for &r in reorder {
+                for &t in tabs {
+                    for &w in &widths {
+                        out.push(Cfg::new(w, t, r));
+                    }
+                }
+            }
+            out
+        }
         CfgRule::Sweep { tabs, reorder } => {
             let flat = match fmtx::fmt(text, Cfg::w(fmtx::W_INF)) {
                 FmtOut::Ok(y) => fmtx::longest_line(&y),
                 _ => 120,
             };
-            let widths = if tier == Tier::Quick || text.len() > 12_000 {
+            let widths = if tier == Tier::Quick || (tier == Tier::Thorough && text.len() > 12_000) {
                 fmtx::quick_widths(rng, flat)
             } else {
                 fmtx::all_widths(flat)
@@ -75,7 +103,7 @@ pub fn cfgs_for(rule: &CfgRule, text: &str, tier: Tier, rng: &mut Rng) -> Vec<Cf
             for &r in reorder {
                 for (ti, &t) in tabs.iter().enumerate() {
                     // the full width sweep runs at the first tab size; other tab sizes get the quick widths
-                    if ti == 0 || tier == Tier::Quick {
+                    if ti == 0 || tier == Tier::Quick || tier == Tier::Full {
                         for &w in &widths {
                             out.push(Cfg::new(w, t, r));
                         }
@@ -91,8 +119,13 @@ pub fn cfgs_for(rule: &CfgRule, text: &str, tier: Tier, rng: &mut Rng) -> Vec<Cf
     }
 }
 
-/// Run a tree property over the parts. Returns the accumulator and pool metadata for evidence.
-pub fn run_tree_workload(chk: &TreeCheck, parts: &[Part], tier: Tier, seed: u64) -> (Acc, Vec<Value>) {
+/// Run `f` on every selected item of every part. Returns the accumulator and pool metadata for evidence.
+pub fn run_parts(
+    parts: &[Part],
+    tier: Tier,
+    seed: u64,
+    f: impl Fn(&Part, &Case, &mut Rng, &mut Acc) + Sync,
+) -> (Acc, Vec<Value>) {
     let mut total = Acc::new();
     let mut meta = vec![];
     for (pi, part) in parts.iter().enumerate() {
@@ -110,8 +143,7 @@ pub fn run_tree_workload(chk: &TreeCheck, parts: &[Part], tier: Tier, seed: u64)
                 return;
             };
             let mut r = Rng::new(s);
-            let cfgs = cfgs_for(&part.cfg, &case.text, tier, &mut r);
-            treeprops::run_case(chk, &case, &cfgs, acc);
+            f(part, &case, &mut r, acc);
         });
         meta.push(json!({
             "pool": part.pool.name(),
@@ -124,6 +156,14 @@ pub fn run_tree_workload(chk: &TreeCheck, parts: &[Part], tier: Tier, seed: u64)
         total.merge(acc);
     }
     (total, meta)
+}
+
+/// Run a tree property over the parts.
+pub fn run_tree_workload(chk: &TreeCheck, parts: &[Part], tier: Tier, seed: u64) -> (Acc, Vec<Value>) {
+    run_parts(parts, tier, seed, |part, case, r, acc| {
+        let cfgs = cfgs_for(&part.cfg, &case.text, tier, r);
+        treeprops::run_case(chk, case, &cfgs, acc);
+    })
 }
 
 // ------------------------------------------------------------------------------------------------
@@ -164,8 +204,9 @@ impl Std {
     pub fn base_list(&self) -> ListPool {
         let mut cases = self.snippets.clone();
         cases.extend(self.adversarial.clone());
+        cases.extend(corpus::repro_open());
         cases.extend(self.fixtures.clone());
-        ListPool { name: "corpus(fixtures+snippets+adversarial)".into(), cases }
+        ListPool { name: "corpus(fixtures+snippets+adversarial+open-finding reproducers)".into(), cases }
     }
 }
 
